@@ -54,7 +54,11 @@ Section Lang.
   | Seq (p q : prog)
   | If (c : St -> bool) (p q : prog)
   | Loop (n : St -> nat) (p : prog)         (* body run n(state) times, stops at the first failure *)
-  | Havoc (n : St -> nat).                  (* a callee outside the model: n checked device calls *)
+  | Havoc (n : St -> nat)                   (* a callee outside the model: n checked device calls *)
+  | OnFail (p c : prog)                     (* `done: if (ret_value == FAIL) { c }`: clean-up whose results are unused *)
+  | CallElse (name : string) (p : prog) (name2 : string) (q : prog) (onret : St -> St).
+      (* `if (p() fails) return q();`  -- when q succeeds the function returns success; [onret] marks the record
+         so that the rest of the function is skipped *)
 
   Definition outcome := (res * bool * St * oracle * list event)%type.
 
@@ -93,6 +97,17 @@ Section Lang.
     | If c a b => if c st then exec a st o else exec b st o
     | Loop n q => iter (exec q) (n st) st o
     | Havoc n => iter (io_checked DAny (fun s => s)) (n st) st o
+    | OnFail a c =>
+      let '(r, l, st1, o1, t1) := exec a st o in
+      match r with
+      | ROk => (ROk, l, st1, o1, t1)
+      | RErr => let '(_, _, st2, o2, t2) := exec c st1 o1 in (RErr, l, st2, o2, t1 ++ t2)
+      end
+    | CallElse _ a _ b onret =>
+      let '(r, l, st1, o1, t1) := exec a st o in
+      if fn_ok r l then (ROk, false, st1, o1, t1)
+      else let '(r2, l2, st2, o2, t2) := exec b st1 o1 in
+           ((if fn_ok r2 l2 then ROk else RErr), false, (if fn_ok r2 l2 then onret st2 else st2), o2, t1 ++ t2)
     end.
 
   (** a whole function: (returned SUCCEED?, record afterwards, rest of the oracle, device trace) *)
@@ -111,8 +126,8 @@ Section Lang.
   (** no call site, at any depth, drops a result *)
   Fixpoint no_dropped (p : prog) : bool :=
     match p with
-    | IoDrop _ | CallDrop _ _ => false
-    | Call _ q | CallLate _ q | Loop _ q => no_dropped q
+    | IoDrop _ | CallDrop _ _ | CallElse _ _ _ _ _ => false
+    | Call _ q | CallLate _ q | Loop _ q | OnFail q _ => no_dropped q
     | Seq a b | If _ a b => no_dropped a && no_dropped b
     | _ => true
     end.
@@ -127,6 +142,8 @@ Section Lang.
     | CallDrop n _ => [(n, Dropped)]
     | Seq a b | If _ a b => sites a ++ sites b
     | Loop _ q => sites q
+    | OnFail a c => sites a ++ map (fun s => (fst s, OnFailPath)) (sites c)
+    | CallElse n _ m _ _ => [(n, Diverted); (m, Checked)]
     | _ => []
     end.
 End Lang.
@@ -143,6 +160,8 @@ Arguments Seq {St}.
 Arguments If {St}.
 Arguments Loop {St}.
 Arguments Havoc {St}.
+Arguments OnFail {St}.
+Arguments CallElse {St}.
 
 (** the generated table distinguishes "returned as the function's own result" from "checked"; both leave the
     function with the failure value *)
@@ -168,33 +187,41 @@ Record frec := {
   attach    : Z;
   vmod      : bool;     (* version.modified *)
   vcalls    : nat;      (* device calls made by HIupdate_version's Hputelement (outside this model) *)
-  file_open : bool      (* file_rec->file != NULL *)
+  file_open : bool;     (* file_rec->file != NULL *)
+  writable  : bool;     (* file_rec->access & DFACC_WRITE *)
+  own_aid   : bool      (* an access record started through this very file id is still attached *)
 }.
 
 Definition set_pos (s : frec) (off : Z) (op : lastop) : frec :=
   {| cur_off := off; last_op := op; end_off := end_off s; cache := cache s; dirty_dd := dirty_dd s;
      dirty_end := dirty_end s; blocks := blocks s; cursor := cursor s; refcount := refcount s; attach := attach s;
-     vmod := vmod s; vcalls := vcalls s; file_open := file_open s |}.
+     vmod := vmod s; vcalls := vcalls s; file_open := file_open s;
+     writable := writable s; own_aid := own_aid s |}.
 Definition set_dirty (s : frec) (dd de : bool) : frec :=
   {| cur_off := cur_off s; last_op := last_op s; end_off := end_off s; cache := cache s; dirty_dd := dd;
      dirty_end := de; blocks := blocks s; cursor := cursor s; refcount := refcount s; attach := attach s;
-     vmod := vmod s; vcalls := vcalls s; file_open := file_open s |}.
+     vmod := vmod s; vcalls := vcalls s; file_open := file_open s;
+     writable := writable s; own_aid := own_aid s |}.
 Definition set_blocks (s : frec) (bs : list blk) (c : nat) : frec :=
   {| cur_off := cur_off s; last_op := last_op s; end_off := end_off s; cache := cache s; dirty_dd := dirty_dd s;
      dirty_end := dirty_end s; blocks := bs; cursor := c; refcount := refcount s; attach := attach s;
-     vmod := vmod s; vcalls := vcalls s; file_open := file_open s |}.
+     vmod := vmod s; vcalls := vcalls s; file_open := file_open s;
+     writable := writable s; own_aid := own_aid s |}.
 Definition set_ref (s : frec) (r : Z) : frec :=
   {| cur_off := cur_off s; last_op := last_op s; end_off := end_off s; cache := cache s; dirty_dd := dirty_dd s;
      dirty_end := dirty_end s; blocks := blocks s; cursor := cursor s; refcount := r; attach := attach s;
-     vmod := vmod s; vcalls := vcalls s; file_open := file_open s |}.
+     vmod := vmod s; vcalls := vcalls s; file_open := file_open s;
+     writable := writable s; own_aid := own_aid s |}.
 Definition set_vmod (s : frec) (v : bool) : frec :=
   {| cur_off := cur_off s; last_op := last_op s; end_off := end_off s; cache := cache s; dirty_dd := dirty_dd s;
      dirty_end := dirty_end s; blocks := blocks s; cursor := cursor s; refcount := refcount s; attach := attach s;
-     vmod := v; vcalls := vcalls s; file_open := file_open s |}.
+     vmod := v; vcalls := vcalls s; file_open := file_open s;
+     writable := writable s; own_aid := own_aid s |}.
 Definition set_open (s : frec) (b : bool) : frec :=
   {| cur_off := cur_off s; last_op := last_op s; end_off := end_off s; cache := cache s; dirty_dd := dirty_dd s;
      dirty_end := dirty_end s; blocks := blocks s; cursor := cursor s; refcount := refcount s; attach := attach s;
-     vmod := vmod s; vcalls := vcalls s; file_open := b |}.
+     vmod := vmod s; vcalls := vcalls s; file_open := b;
+     writable := writable s; own_aid := own_aid s |}.
 
 Definition lastop_eqb (a b : lastop) : bool :=
   match a, b with
@@ -280,12 +307,13 @@ Definition Hclose_tail : P :=
 
 Definition Hclose_prog : P :=
   Seq (If (fun s => Z.eqb (refcount s) 0) Fail Skip)                                     (* BADFREC *)
- (Seq (If (fun s => Z.ltb 0 (refcount s) && vmod s) (Call "HIupdate_version" HIupdate_version_prog) Skip)
+ (Seq (If (fun s => Z.ltb 1 (refcount s) && Z.ltb 0 (attach s) && own_aid s) Fail Skip) (* aids of this file id *)
+ (Seq (If (fun s => Z.ltb 0 (refcount s) && vmod s && writable s) (Call "HIupdate_version" HIupdate_version_prog) Skip)
  (Seq (Upd (fun s => set_ref s (refcount s - 1)))
       (If (fun s => Z.eqb (refcount s) 0)
           (Seq (If (fun s => Z.ltb 0 (attach s)) (Seq (Upd (fun s => set_ref s (refcount s + 1))) Fail) Skip)
           (Seq (Call "HIsync" HIsync_prog) Hclose_tail))
-          Skip))).
+          Skip)))).
 
 (** Hclose as it was before the fixes (DESIGN.md section 8 #10): both results dropped, and a failed fclose left the
     stream pointer set (hi_close_stdio returned before clearing it) so that HIrelease_filerec_node closed it again *)
@@ -309,3 +337,130 @@ Definition Hsync_prog : P := Seq (If (fun s => Z.eqb (refcount s) 0) Fail Skip) 
 (** a fault plan as the harness issues it: call k fails (single), or call k and every later one (sticky) *)
 Definition plan (k : nat) (sticky : bool) (horizon : nat) : oracle :=
   repeat false k ++ (if sticky then repeat true horizon else [true]).
+
+(* ------------------------------------------------------------------------------------------------------------ *)
+(** * The anchored functions above L1 (vgp.c, vio.c, hchunks.c, mcache.c, cdf.c, file.c, mfsd.c, HPread_drec)
+
+    Their data-dependent control flow is resolved by an environment of CHOICES: every `if` on library data takes its
+    branch from a stream of booleans, every loop its trip count from a stream of numbers, every callee outside the
+    model (Hputelement, Vend, VSwrite ...) makes a number of checked device calls taken from a third stream and may
+    then also fail for a reason that is no I/O failure.  The theorems quantify over all environments, hence over
+    every resolution of the branches.  Two facts persist across a function: netCDF define mode (NC_INDEF) and
+    "the function has already returned" (early `return ncabort(..)` in ncclose). *)
+
+Record genv := {
+  choices  : list bool;
+  trips    : list nat;
+  counts   : list nat;
+  cur      : nat;        (* trip count of the loop being entered *)
+  indef    : bool;       (* handle->flags & NC_INDEF *)
+  decode   : bool;       (* xdrs->x_op == XDR_DECODE (reading the structure in; not part of the close path) *)
+  returned : bool
+}.
+Definition pop_choice (s : genv) : genv :=
+  {| choices := tl (choices s); trips := trips s; counts := counts s; cur := cur s; indef := indef s;
+     decode := decode s; returned := returned s |}.
+Definition pop_count (s : genv) : genv :=
+  {| choices := choices s; trips := trips s; counts := tl (counts s); cur := cur s; indef := indef s;
+     decode := decode s; returned := returned s |}.
+Definition pop_trip (s : genv) : genv :=
+  {| choices := choices s; trips := tl (trips s); counts := counts s; cur := hd O (trips s); indef := indef s;
+     decode := decode s; returned := returned s |}.
+Definition set_returned (s : genv) : genv :=
+  {| choices := choices s; trips := trips s; counts := counts s; cur := cur s; indef := indef s;
+     decode := decode s; returned := true |}.
+
+Definition G := prog genv.
+(** a branch on library data *)
+Definition Nd (a b : G) : G := If (fun s => hd false (choices s)) (Seq (Upd pop_choice) a) (Seq (Upd pop_choice) b).
+(** a check that is no I/O (argument validation, malloc, table look-up): may leave with FAIL *)
+Definition MayFail : G := Nd Fail Skip.
+(** a loop over library data *)
+Definition LoopN (body : G) : G := Seq (Upd pop_trip) (Loop cur body).
+(** a callee outside the model *)
+Definition ext_body : G := Seq (Havoc (fun s => hd O (counts s))) (Seq (Upd pop_count) MayFail).
+Definition Ext (n : string) : G := Call n ext_body.
+Definition ExtLate (n : string) : G := CallLate n ext_body.
+
+(** HPread_drec (hfile.c) *)
+Definition HPread_drec_prog : G :=
+  OnFail (Seq MayFail (Seq (Ext "Hstartaccess") (Seq (Ext "Hread") (Ext "Hendaccess"))))
+         (Nd (CallDrop "Hendaccess" ext_body) Skip).
+
+(** Vdetach (vgp.c, fixed: the vgroup write is reported late) *)
+Definition Vdetach_prog : G :=
+  Seq MayFail
+      (Nd (Seq MayFail (Seq (Nd (Nd (Ext "HDreuse_tagref") MayFail) Skip) (ExtLate "Hputelement"))) Skip).
+
+(** VSdetach (vio.c) *)
+Definition VSdetach_prog : G :=
+  Seq MayFail
+      (Nd (Nd (Ext "Hendaccess") Skip)
+          (Seq MayFail
+          (Seq (Nd (Seq MayFail (Seq (Nd (Nd (Ext "HDreuse_tagref") MayFail) Skip) (Ext "Hputelement"))) Skip)
+               (Ext "Hendaccess")))).
+
+(** mcache_sync (mcache.c) *)
+Definition mcache_sync_prog : G := Seq MayFail (LoopN (Nd (Ext "mcache_write") Skip)).
+
+(** HMCPcloseAID (hchunks.c, fixed: the cache flush is reported late) *)
+Definition HMCPcloseAID_prog : G :=
+  Seq MayFail
+      (Nd (Seq (Nd (CallLate "mcache_sync" mcache_sync_prog) Skip)
+          (Seq (Nd (Call "VSdetach" VSdetach_prog) Fail) (Ext "Vend")))
+          Skip).
+
+(** HMCPendaccess (hchunks.c) *)
+Definition HMCPendaccess_prog : G :=
+  Seq MayFail (Seq (CallLate "HMCPcloseAID" HMCPcloseAID_prog) (Ext "HTPendaccess")).
+
+(** NC_free_cdf (cdf.c); Hclose is the L1 model above, here through its proved interface *)
+Definition NC_free_cdf_prog : G :=
+  Nd (Seq (Ext "NC_free_xcdf") (Nd (Seq (Ext "Vend") (Ext "Hclose")) Skip)) Skip.
+
+(** hdf_close (cdf.c) *)
+Definition hdf_close_prog : G :=
+  Seq (Nd (LoopN (Nd (Ext "Hendaccess") Skip)) Skip)
+      (Nd (Seq (Ext "Vattach")
+          (Seq (LoopN
+                 (Nd (Seq (Ext "Vattach")
+                     (Seq MayFail
+                     (Seq (Nd (LoopN
+                                 (Nd (Seq (Ext "VSattach")
+                                     (Seq MayFail
+                                     (Seq (Nd (Seq MayFail (Seq (Ext "VSseek") (Ext "VSwrite"))) Skip)
+                                          (Call "VSdetach" VSdetach_prog))))
+                                     Skip))
+                              Skip)
+                          (Call "Vdetach" Vdetach_prog))))
+                     Skip))
+               (Call "Vdetach" Vdetach_prog)))
+          Skip).
+
+(** hdf_xdr_cdf (cdf.c): XDR_ENCODE and XDR_FREE; XDR_DECODE (SDstart) is outside the close path *)
+Definition hdf_xdr_cdf_prog : G :=
+  If decode Skip
+     (Nd (Seq (Nd (Ext "hdf_cdf_clobber") Skip) (Ext "hdf_write_xdr_cdf"))
+         (Nd (CallLate "NC_free_cdf" NC_free_cdf_prog) Fail)).
+
+(** xdr_cdf (cdf.c): HDF files; the netCDF / CDF branches are other libraries' formats *)
+Definition xdr_cdf_prog : G := Nd (CallLate "hdf_xdr_cdf" hdf_xdr_cdf_prog) MayFail.
+
+(** ncclose (file.c, fixed: hdf_close and NC_free_cdf are reported late) *)
+Definition ncclose_prog : G :=
+  Seq MayFail
+ (Seq (If indef
+          (CallElse "NC_endef" ext_body "ncabort" ext_body set_returned)
+          (Nd (Nd (Call "xdr_cdf" xdr_cdf_prog) (Nd (Ext "xdr_numrecs") Skip)) Skip))
+      (If returned Skip
+          (Seq (Nd (CallLate "hdf_close" hdf_close_prog) Skip)
+          (Seq (CallLate "NC_free_cdf" NC_free_cdf_prog) MayFail)))).
+
+(** SDend (mfsd.c) *)
+Definition SDend_prog : G :=
+  Seq MayFail
+ (Seq (Nd (Nd (Call "xdr_cdf" xdr_cdf_prog) (Nd (Ext "xdr_numrecs") Skip)) Skip)
+      (Call "ncclose" ncclose_prog)).
+
+(** SDendaccess (mfsd.c) *)
+Definition SDendaccess_prog : G := Seq MayFail (Ext "SDIfreevarAID").
